@@ -40,11 +40,15 @@ impl EnergyIndicators {
 
     /// Calcula indicadores energéticos del modelo
     pub fn compute(model: &Model) -> Self {
+        #[cfg(cteenergymodel_verif)]
+        crate::verif_hooks::point("indicators:entry");
         let climatezone = model.meta.climate;
         let totradjul = climatedata::total_radiation_in_july_by_orientation(&climatezone);
 
         // TODO: Esto debería devolver su propia lista de comprobaciones (distinta de model.check)
         // que se entregarían al final
+        #[cfg(cteenergymodel_verif)]
+        crate::verif_hooks::point("indicators:props");
         let props = EnergyProps::from(model);
 
         Self {
